@@ -58,7 +58,7 @@ SPEC = {
         "slice_cost_table", "alloc_shape_as_modelled", "params_of_targets_ok", "params_of_targets", "index_ranges_tile",
         "inline_offsets_tile", "binding_complete", "inline_buffers_correct", "assign_ok_of_root_kinds",
         "compile_shape_as_modelled", "per_pipeline_default_group", "fresh_module_unbound", "per_pipeline_tiling",
-        "by_name_agrees_with_whole_file"]],
+        "by_name_agrees_with_whole_file", "metadata_is_the_allocation"]],
     "harness": "c06",
     "level_text": "Proof: the allocator model (a fold with two counters) is proved, for every declaration sequence, default group "
                   "and parameter set compile() can build, to hand out per-group index ranges that tile [0,total) in declaration "
